@@ -217,6 +217,52 @@ def natives(interp_ref):
             raise mirsym.Panic(f"slice index {lo}..{hi} out of range for length {len(lst)}", kind="panic")
         return lst[lo:hi]
 
+    def closure_fn(it, span):
+        c = [n for n, f in it.fns.items() if "{closure#" in n and f.args and span in f.args[0][1]]
+        if len(c) != 1:
+            raise Unsupported(f"closure {span} not found uniquely: {c}")
+        return it.fns[c[0]].parsed()
+
+    def n_iter_search(it, a, d, m):
+        """position / rposition / any / all / find over a slice iterator with the real closure body"""
+        kind, span = m.group(1), m.group(2)
+        si = pm.deref(a[0])
+        fn = closure_fn(it, "{closure@" + span + "}")
+        idxs = list(range(si.i, len(si.lst)))
+        if kind == "rposition":
+            idxs.reverse()
+        for j in idxs:
+            r = it.run_fn(fn, [Ref({"c": a[1]}, "c"), Ref(si.lst, j)])
+            hit = it.decide(r) if not isinstance(r, bool) else r
+            if kind == "all":
+                if not hit:
+                    return False
+                continue
+            if hit:
+                if kind == "any":
+                    return True
+                if kind == "find":
+                    si.i = j + 1
+                    return En("Some", [Ref(si.lst, j)], ty="Option")
+                return En("Some", [I(j - si.i if kind == "position" else j - si.i, "usize")], ty="Option")
+        if kind == "all":
+            return True
+        if kind == "any":
+            return False
+        return En("None", [], ty="Option")
+
+    def n_option_map(it, a, d, m):
+        kind, span = m.group(1), m.group(2)
+        o = pm.deref(a[0])
+        fn = closure_fn(it, "{closure@" + span + "}")
+        clo = a[-1]
+        first_ty = fn.args[0][1]
+        carg = clo if not first_ty.startswith("&") else Ref({"c": clo}, "c")
+        if o.variant == "Some":
+            r = it.run_fn(fn, [carg, o.fields[0]])
+            return r if kind == "map_or" else En("Some", [r], ty="Option")
+        return a[1] if kind == "map_or" else En("None", [], ty="Option")
+
     def n_format(it, a, d, m):
         return Opaque("string")
 
@@ -225,6 +271,8 @@ def natives(interp_ref):
         (re.compile(r"<&\[.*\] as IntoIterator>::into_iter|core::slice::<impl \[.*\]>::iter"), lambda it, a, d, m: SliceIter(pm.deref(a[0]))),
         (re.compile(r"<std::slice::Iter<'_, .*> as Iterator>::next"), n_iter_next),
         (re.compile(r"(?:std::vec::)?Vec::<.*>::resize"), n_resize),
+        (re.compile(r"Option::<.*>::(map_or|map)::<(?:.*, )?\{closure@([^}]*)\}>"), n_option_map),
+        (re.compile(r"<std::slice::Iter<'_, .*> as Iterator>::(position|rposition|any|all|find)::<(?:.*, )?\{closure@([^}]*)\}>"), n_iter_search),
         (re.compile(r"<(?:std::vec::)?Vec<.*> as Index<(?:std::ops::)?(RangeTo|RangeFrom|Range)<usize>>>::index|core::slice::index::<impl Index<(?:std::ops::)?(RangeTo|RangeFrom|Range)<usize>> for \[.*\]>::index"), n_index_range),
         (re.compile(r"format|alloc::fmt::format|std::fmt::format|<.* as ToString>::to_string"), n_format),
         (re.compile(r"Result::<StackOutputs, OutputError>::map_err::<DeserializationError, .*>"),
